@@ -685,6 +685,7 @@ impl<'de, R: Read<'de>> Parser<R> {
             Token::VecOpen(close) => {
                 self.remaining_depth -= 1;
                 if self.remaining_depth == 0 {
+                    self.remaining_depth += 1;
                     return Err(self.peek_error(ErrorCode::RecursionLimitExceeded));
                 }
 
@@ -700,6 +701,7 @@ impl<'de, R: Read<'de>> Parser<R> {
             Token::ListOpen(close) => {
                 self.remaining_depth -= 1;
                 if self.remaining_depth == 0 {
+                    self.remaining_depth += 1;
                     return Err(self.peek_error(ErrorCode::RecursionLimitExceeded));
                 }
 
@@ -768,6 +770,7 @@ impl<'de, R: Read<'de>> Parser<R> {
             Token::VecOpen(close) => {
                 self.remaining_depth -= 1;
                 if self.remaining_depth == 0 {
+                    self.remaining_depth += 1;
                     return Err(self.peek_error(ErrorCode::RecursionLimitExceeded));
                 }
 
@@ -785,6 +788,7 @@ impl<'de, R: Read<'de>> Parser<R> {
             Token::ListOpen(close) => {
                 self.remaining_depth -= 1;
                 if self.remaining_depth == 0 {
+                    self.remaining_depth += 1;
                     return Err(self.peek_error(ErrorCode::RecursionLimitExceeded));
                 }
 
